@@ -62,6 +62,7 @@ package core
 // 1 = in use at a byte offset, 2 = compressed (object stream number, index).
 //@ func (*XRefParser) parseXRefStreamEntry results (entry, n, err)
 //@   property C02, C04
+//@   flags overflow
 //@   requires len(w) == 3 && w[0] >= 0 && w[1] >= 0 && w[2] >= 0
 //@   let ty = w[0] > 0 ? be(data[0:w[0]], min(w[0], 8)) : 1
 //@   ensures consumed: !err ==> n == w[0] + w[1] + w[2] && n <= len(data) && n >= 0
